@@ -1450,3 +1450,363 @@ func ruleShoelaceConvention(rule string, fns []string, minTerms int) func(*Ctx) 
 		c.floor(rule, n, minTerms)
 	}
 }
+
+// ruleOpenCutCandidates: C09.cut-at — which closed edges may cut an open path: under Union the edges that bound the
+// union (the closed edge is producing output), under Intersection and Difference the clip set's boundary edges,
+// whatever the subject polygons do. (Xor is not constrained by the property.)
+func ruleOpenCutCandidates(rule string) func(*Ctx) {
+	return func(c *Ctx) {
+		f := c.fn("(clipperBase).intersectEdges")
+		recv := f.Params[0].Name()
+		fills := c.enumValues("FillRule")
+		clips := c.enumValues("ClipType")
+		polys := c.enumValues("PathType")
+		effects := []string{"addOutPt", "(clipperBase).startOpenPath", "setSides"}
+		for _, ct := range clips {
+			if ct.name == "NoClip" || ct.name == "Xor" {
+				continue
+			}
+			bad := ""
+			n := 0
+			for _, pt := range polys {
+				for _, hot := range []bool{false, true} {
+					atoms := map[string]absVal{
+						recv + ".hasOpenPaths": boolVal(true), "isOpen(ae1)": boolVal(true), "isOpen(ae2)": boolVal(false), "isJoined(ae2)": boolVal(false),
+						recv + ".fillRule": intVal(enumByName(fills, "NonZero")), recv + ".clipType": intVal(ct.val),
+						"ae2.localMin.PolyType": intVal(pt.val), "getPolyType(ae2)": intVal(pt.val), "ae2.windCount": intVal(1), "isHotEdge(ae2)": boolVal(hot),
+					}
+					ex := &explorer{c: c, f: f, atoms: atoms, canon: canonParams(f, recv, "ae1", "ae2", "pt"), maxPaths: 4000}
+					outs := ex.explore(nil)
+					if ex.overflow {
+						fatalf("intersectEdges: path explosion")
+					}
+					has := false
+					for _, p := range outs {
+						for _, e := range effects {
+							if p.called(e) {
+								has = true
+							}
+						}
+					}
+					want := pt.name == "Clip"
+					if ct.name == "Union" {
+						want = hot
+					}
+					n++
+					if has != want && bad == "" {
+						bad = fmt.Sprintf("%s: an open path meeting a closed %s boundary edge (producing output=%v) is cut=%v, the property's coverage table requires %v", ct.name, pt.name, hot, has, want)
+					}
+				}
+			}
+			c.check(bad == "", rule, fmt.Sprintf("%s:intersectEdges:%s", rule, ct.name), f.Pos(), "(clipperBase).intersectEdges",
+				fmt.Sprintf("%d cells (closed edge's set x producing output): open paths are cut at the union's boundary (Union) / at clip boundaries (Intersection, Difference)", n), bad,
+				"Union keeps the parts of a line outside BOTH sets, so it must be cut where it enters a subject polygon too; Intersection/Difference look at the clip set only")
+		}
+	}
+}
+
+// ruleDescaleExact: C07.descale — scaling 64-bit results back to float goes through the decimal library (an exact
+// product, rounded once); no coordinate converted to float64 takes part in a float multiplication or division in
+// the de-scaling function, on any path (a "fast path" through float arithmetic double-rounds above 2^53).
+func ruleDescaleExact(rule string, fns []string) func(*Ctx) {
+	return func(c *Ctx) {
+		n := 0
+		for _, fn := range fns {
+			f := c.fn(fn)
+			bad := ""
+			conv := 0
+			for _, b := range f.Blocks {
+				for _, in := range b.Instrs {
+					bo, ok := in.(*ssa.BinOp)
+					if !ok || !isFloat(bo.Type()) || (bo.Op != token.MUL && bo.Op != token.QUO) {
+						continue
+					}
+					for _, o := range []ssa.Value{bo.X, bo.Y} {
+						if cv, ok := o.(*ssa.Convert); ok && !isFloat(cv.X.Type()) {
+							bad = fmt.Sprintf("a coordinate converted to float64 is %s at %s", map[token.Token]string{token.MUL: "multiplied", token.QUO: "divided"}[bo.Op], c.pos(bo.Pos()))
+						}
+					}
+				}
+			}
+			for _, ci := range calls(f) {
+				if strings.Contains(calleeName(c, ci), "decimal") {
+					conv++
+				}
+			}
+			n++
+			c.check(bad == "" && conv > 0, rule, fmt.Sprintf("%s:%s:exact-product", rule, fn), f.Pos(), fn,
+				fmt.Sprintf("every result coordinate comes out of the decimal library (%d calls); no float product or quotient of a converted coordinate", conv), bad,
+				"float64(c)/10^p is not the correctly rounded value of c*10^-p once c exceeds 2^53 or the quotient needs two roundings: the D result then differs from the 64-bit result scaled back")
+		}
+		c.floor(rule, n, len(fns))
+	}
+}
+
+// ruleRectSkipOnly: a path is left out of the rectangle clippers' result without being looked at only because it
+// has too few points or because its bounds miss the rectangle — no other test may drop it (a polyline along an axis
+// has "empty" bounds and still crosses the rectangle).
+func ruleRectSkipOnly(rule string, fn string, work []string) func(*Ctx) {
+	return func(c *Ctx) {
+		f := c.fn(fn)
+		var outer *loopInfo
+		for _, l := range naturalLoops(f) {
+			if outer == nil || len(l.blocks) > len(outer.blocks) {
+				outer = l
+			}
+		}
+		if outer == nil {
+			fatalf("%s: no loop", fn)
+		}
+		ll := outer
+		outs := (&explorer{c: c, f: f, maxPaths: 4000, stop: func(b *ssa.BasicBlock) bool { return !ll.blocks[b] }}).explore(outer.header)
+		bad := ""
+		skips := 0
+		for _, p := range outs {
+			if p.end != "loop" {
+				continue
+			}
+			worked := p.called("builtin.append")
+			for _, w := range work {
+				if p.called(w) {
+					worked = true
+				}
+			}
+			if worked {
+				continue
+			}
+			skips++
+			for _, cd := range p.conds {
+				switch {
+				case strings.Contains(cd.expr, "rangeindex"), strings.HasPrefix(cd.expr, "(len("):
+				case strings.HasPrefix(cd.expr, "(Rect64).Intersects("), strings.HasPrefix(cd.expr, "(Rect64).Contains("):
+				default:
+					if bad == "" {
+						bad = fmt.Sprintf("a path is skipped on the outcome of %s (=%v)", cd.expr, cd.taken)
+					}
+				}
+			}
+		}
+		c.check(bad == "" && skips > 0, rule, rule+":"+fn+":skips", f.Pos(), fn,
+			fmt.Sprintf("%d explored ways to skip a path: only a length test or `bounds miss the rectangle`", skips), bad,
+			"an axis-parallel polyline (or a degenerate polygon) has bounds of zero width or height and still crosses the rectangle: dropping it on any test other than disjointness loses a line the property requires")
+	}
+}
+
+// ruleSimplifyEarly: C16.early — SimplifyPath returns its input untouched only for paths too short to simplify
+// (fewer than 4 points); any other "nothing to do" shortcut must be exact for every vertex, the last one of a closed
+// path included, and there is none today.
+func ruleSimplifyEarly(rule string, fns []string) func(*Ctx) {
+	return func(c *Ctx) {
+		for _, fn := range fns {
+			f := c.fn(fn)
+			ex := &explorer{c: c, f: f, canon: canonParams(f, "path", "epsilon", "isClosedPath"), maxPaths: 60000}
+			outs := ex.explore(nil)
+			if ex.overflow {
+				fatalf("%s: path explosion", fn)
+			}
+			bad := ""
+			n := 0
+			for _, p := range outs {
+				if p.end != "return" || len(p.ret) != 1 || p.ret[0].expr != "path" {
+					continue
+				}
+				n++
+				for _, cd := range p.conds {
+					if !strings.HasPrefix(cd.expr, "(len(path) ") {
+						if bad == "" {
+							bad = fmt.Sprintf("the input is returned unchanged depending on %s", cd.expr)
+						}
+					}
+				}
+			}
+			c.check(bad == "" && n > 0, rule, rule+":"+fn+":unchanged-return", f.Pos(), fn,
+				fmt.Sprintf("the input itself is returned on %d path(s), decided by its length alone", n), bad,
+				"a shortcut that skips the removal loop must look at every distance the loop would look at; one that misses a vertex keeps a point within epsilon of its neighbours' line for one rotation of the same ring only")
+		}
+	}
+}
+
+// ruleIntersectPointMirror: C10.ipt — intersectPoint(line1, line2) treats "line 1 is vertical" and "line 2 is
+// vertical" separately; the point it returns in one case must be the other case's point with the two lines
+// exchanged. Values are compared as expressions over the four parameters, so locals and extracted helpers do not
+// matter.
+func ruleIntersectPointMirror(rule string) func(*Ctx) {
+	return func(c *Ctx) {
+		f := c.fn("intersectPoint")
+		ex := &explorer{c: c, f: f, canon: canonParams(f, "pt1a", "pt1b", "pt2a", "pt2b"), maxPaths: 200}
+		outs := ex.explore(nil)
+		swap := func(s string) string {
+			return strings.NewReplacer("pt1", "pt\x00", "pt2", "pt1").Replace(s)
+		}
+		fix := func(s string) string { return strings.ReplaceAll(s, "pt\x00", "pt2") }
+		mirror := func(s string) string { return fix(swap(s)) }
+		get := func(v1, v2 bool) (string, string, bool) {
+			for _, p := range outs {
+				if p.end != "return" {
+					continue
+				}
+				a, b := 0, 0 // 1 taken, 2 not
+				for _, cd := range p.conds {
+					switch cd.expr {
+					case "isAlmostZero((pt1a.X - pt1b.X))":
+						a = map[bool]int{true: 1, false: 2}[cd.taken]
+					case "isAlmostZero((pt2a.X - pt2b.X))":
+						b = map[bool]int{true: 1, false: 2}[cd.taken]
+					}
+				}
+				if a == map[bool]int{true: 1, false: 2}[v1] && b == map[bool]int{true: 1, false: 2}[v2] {
+					x, y := "", ""
+					for _, s := range p.stores {
+						if strings.HasSuffix(s.addr, ".X") {
+							x = s.val.expr
+						}
+						if strings.HasSuffix(s.addr, ".Y") {
+							y = s.val.expr
+						}
+					}
+					return x, y, true
+				}
+			}
+			return "", "", false
+		}
+		x1, y1, ok1 := get(true, false)
+		x2, y2, ok2 := get(false, true)
+		if !ok1 || !ok2 {
+			fatalf("intersectPoint: the two vertical-line cases were not found")
+		}
+		bad := ""
+		if mirror(x1) != x2 || mirror(y1) != y2 {
+			bad = fmt.Sprintf("line 1 vertical gives (%s, %s); exchanging the lines that is (%s, %s), but line 2 vertical gives (%s, %s)", x1, y1, mirror(x1), mirror(y1), x2, y2)
+		}
+		// and the vertical line's own X is the one returned
+		if bad == "" && x1 != "pt1a.X" && x1 != "pt1b.X" {
+			bad = "with line 1 vertical the X returned is " + x1 + ", not that line's X"
+		}
+		c.check(bad == "", rule, rule+":intersectPoint:vertical-cases", f.Pos(), "intersectPoint",
+			"the two vertical-line cases are each other's image under exchanging the lines, and return the vertical line's X", bad,
+			"doSquare places the corner of a square join at this intersection; a wrong X in one case throws the corner far from the path, only for joins whose bisector is exactly horizontal")
+	}
+}
+
+// ruleEveryPathEntersRing: C01.all-paths — every input path's points reach the vertex list: in the loop over the
+// paths, the only way to go on to the next path without having added a vertex is that the path has no points.
+func ruleEveryPathEntersRing(rule string) func(*Ctx) {
+	return func(c *Ctx) {
+		f := c.fn("addPathsToVertexList")
+		var outer *loopInfo
+		for _, ci := range callsTo(c, f, "(VertexPoolList).Add") {
+			for _, l := range naturalLoops(f) {
+				if l.blocks[ci.Block()] && (outer == nil || len(l.blocks) > len(outer.blocks)) {
+					outer = l
+				}
+			}
+		}
+		if outer == nil {
+			fatalf("addPathsToVertexList: loop over paths not found")
+		}
+		ll := outer
+		ex := &explorer{c: c, f: f, maxPaths: 20000, stop: func(b *ssa.BasicBlock) bool { return !ll.blocks[b] }}
+		outs := ex.explore(outer.header)
+		if ex.overflow {
+			fatalf("addPathsToVertexList: path explosion")
+		}
+		bad := ""
+		n := 0
+		for _, p := range outs {
+			if p.end != "loop" || p.called("(VertexPoolList).Add") {
+				continue
+			}
+			n++
+			for _, cd := range p.conds {
+				if strings.Contains(cd.expr, "rangeindex") || strings.HasPrefix(cd.expr, "(len(") {
+					continue
+				}
+				if bad == "" {
+					bad = fmt.Sprintf("a path is passed over without any of its points being added, depending on %s", cd.expr)
+				}
+			}
+		}
+		c.check(bad == "" && n > 0, rule, rule+":addPathsToVertexList:no-filter", f.Pos(), "addPathsToVertexList",
+			fmt.Sprintf("%d explored way(s) to add nothing for a path: it has no points", n), bad,
+			"the region of a path is defined by the fill rule, not by its signed area: a ring with zero net area (a symmetric bow-tie) still has filled lobes under EvenOdd/NonZero; filtering paths before the sweep drops them")
+	}
+}
+
+// ruleArcSignFollowsGroup: C05.arc-sign — the direction in which round joins turn is the sign of the GROUP's delta
+// (it flips for groups of reversed orientation): every store that negates stepSin is guarded by a test of the field
+// groupDelta, and such a store exists.
+func ruleArcSignFollowsGroup(rule string) func(*Ctx) {
+	return func(c *Ctx) {
+		n := 0
+		for _, f := range c.srcFuncs() {
+			for _, st := range fieldStoresIn(c, f, "ClipperOffset")["stepSin"] {
+				u, ok := st.Val.(*ssa.UnOp)
+				if !ok || u.Op != token.SUB || !isFieldLoadOf(u.X, "ClipperOffset", "stepSin") {
+					continue
+				}
+				n++
+				reads := func(v ssa.Value) bool {
+					bo, ok := v.(*ssa.BinOp)
+					return ok && (isFieldLoadOf(bo.X, "ClipperOffset", "groupDelta") || isFieldLoadOf(bo.Y, "ClipperOffset", "groupDelta"))
+				}
+				ok2 := guardedBy(st, true, reads) || guardedBy(st, false, reads)
+				c.check(ok2, rule, fmt.Sprintf("%s:%s:negation#%d", rule, c.fname(f), n), st.Pos(), c.fname(f),
+					"stepSin is negated under a test of co.groupDelta", "stepSin is negated under a test that does not read co.groupDelta (the caller's delta has the other sign for groups of reversed orientation)",
+					"a clockwise input polygon is offset with groupDelta = -delta; arcs that turn with the sign of the caller's delta come out as chamfers there")
+			}
+		}
+		c.floor(rule, n, 1)
+	}
+}
+
+// ruleOffsetAlwaysEmits: C05.emit-all — each per-path offset routine hands a ring to the solution on every path to
+// its return: whether a ring survives is decided by the union that follows, not by a bounding-box guess.
+func ruleOffsetAlwaysEmits(rule string, fns []string) func(*Ctx) {
+	return func(c *Ctx) {
+		for _, fn := range fns {
+			f := c.fn(fn)
+			ex := &explorer{c: c, f: f, maxPaths: 4000}
+			outs := ex.explore(nil)
+			if ex.overflow {
+				fatalf("%s: path explosion", fn)
+			}
+			bad := ""
+			n := 0
+			for _, p := range outs {
+				if p.end != "return" {
+					continue
+				}
+				n++
+				emitted := false
+				for _, s := range p.stores {
+					if strings.HasSuffix(s.addr, ".solution") {
+						emitted = true
+					}
+				}
+				for _, cl := range p.calls {
+					for _, g := range fns {
+						if cl.callee == g {
+							emitted = true
+						}
+					}
+				}
+				if !emitted {
+					// a ring may be dropped as "too small to survive the shrink" only when it is known to be
+					// contracting, i.e. after its orientation (signed area) was compared with the group's direction
+					oriented := false
+					for _, cd := range p.conds {
+						if strings.Contains(cd.expr, "Area64(") || strings.Contains(cd.expr, "IsPositive64(") {
+							oriented = true
+						}
+					}
+					if !oriented && bad == "" {
+						bad = fmt.Sprintf("returns without handing a ring to the solution and without having looked at the ring's orientation (path: %s)", p.condString())
+					}
+				}
+			}
+			c.check(bad == "" && n > 0, rule, rule+":"+fn+":every-return", f.Pos(), fn,
+				fmt.Sprintf("on all %d explored paths to a return a ring is appended to the solution (or dropped only after its orientation was examined)", n), bad,
+				"with delta < 0 a hole GROWS: a guard that drops rings narrower than 2|delta| also drops small holes (and whole groups of reversed orientation)")
+		}
+	}
+}
